@@ -52,7 +52,16 @@ pub fn build_archive_opt(par: &Par, labels: &[Value], sink: SharedSink, flush_al
         }
         if flush_all && lab["op"] != "finalize" {
             let _ = i;
-            d.w.flush().map_err(|e| format!("flush: {e}"))?;
+            // SURFACE of the flush: the writer's own `flush`, or - one time in three, when a file is open - the `flush` of
+            // a FRESH `helpers::StreamWriter` adaptor on that file (the adaptor borrows the writer and is recreated at each
+            // use: what an `io::Write` consumer - BufWriter, LineWriter, a logger - calls)
+            let opened = d.w.verif_state().opened_ids;
+            if i % 3 == 1 && !opened.is_empty() {
+                use std::io::Write;
+                mla::helpers::StreamWriter::new(&mut d.w, opened[i % opened.len()]).flush().map_err(|e| format!("StreamWriter::flush: {e}"))?;
+            } else {
+                d.w.flush().map_err(|e| format!("flush: {e}"))?;
+            }
             flush_snaps.push((d.w.verif_state().position, sink.snapshot().len()));
         }
     }
